@@ -61,6 +61,10 @@ def effects(path):
 
 
 def run(repo, res):
+    from . import wiring
+
+    res.rule("R32.3", "set_metadata reaches the metadata policy from every entry point: no wrapper or constructor on the way accepts it without reading it")
+    wiring.run(repo, res, "R32.3", only={"set_metadata"})
     res.rule("R32.1", "finite abstract interpretation of set_time_metadata with set_metadata folded to False / None / True and every other condition free: False (or no variance) -> no table effect; None -> never drop_metadata, on failure with existing metadata or schema: warning and no write, without either: default schema then write; True -> every non-faulting path ends in a write, preceded by drop_metadata and the default schema iff the first attempt failed with existing metadata or schema")
     res.rule("R32.2", "the row builder updates every row with both keys mn and vr and encodes through the table's own schema (existing fields kept)")
     f = repo.fn("core", "EstimationMethod.set_time_metadata")
@@ -130,17 +134,30 @@ def run(repo, res):
         detail = f"zip over rows: {zipped}, keys {sorted(keys)}, encoder calls {len(enc)}, unconditional: {guarded}"
     res.require(ok, "R32.2", "core.EstimationMethod.set_time_metadata row builder writes mn and vr into every row through the table's schema", detail, repo.loc(rb), detail)
     existing = "row.metadataforrowintable" in t and "{}for_inrange(table.num_rows)" in t
+    # the empty-dict start is taken only when the table holds no metadata bytes at all
+    sel = [n for n in own_nodes(rb) if isinstance(n, ast.If) and "row.metadata" in U(n).replace(" ", "") and ("{}" in U(n).replace(" ", "") or "dict()" in U(n).replace(" ", ""))]
+    if sel:
+        test = sel[0].test
+        decode_in_body = "row.metadata" in "".join(U(x) for x in sel[0].body)
+        tt = U(test).replace(" ", "")
+        has_md = ("len(table.metadata)>0", "len(table.metadata)!=0", "table.metadata.size>0", "len(table.metadata)")
+        no_md = ("len(table.metadata)==0", "notlen(table.metadata)", "table.metadata.size==0")
+        only_emptiness = (decode_in_body and tt in has_md) or ((not decode_in_body) and tt in no_md)
+        res.require(only_emptiness, "R32.2", "core.EstimationMethod.set_time_metadata existing rows are decoded whenever the table holds metadata", f"the choice between decoding the existing rows and starting from empty dicts is made by `{U(test)}`: whenever that differs from 'the table has metadata bytes', every existing field of every row is silently dropped", repo.loc(rb, sel[0]), U(test))
+    else:
+        res.bad("R32.2", "core.EstimationMethod.set_time_metadata existing rows are decoded whenever the table holds metadata", "the decode / empty-start selection was not found", repo.loc(rb))
     res.require(existing, "R32.2", "core.EstimationMethod.set_time_metadata row builder starts from each row's decoded metadata (or {} when the table has none)", "existing fields are not carried over", repo.loc(rb))
 
 
 _H = "            if len(table.metadata) > 0 or table.metadata_schema.schema is not None:\n                if not self.set_metadata:\n"
-VARIANTS = [
+VARIANTS = [dict(v, rule="R32.3") for v in __import__("sa.rules.wiring", fromlist=["VARIANTS"]).VARIANTS] + [
     dict(name="none-drops-metadata", mod="core", expect="fire", rule="R32.1", old=_H, new="            if len(table.metadata) > 0 or table.metadata_schema.schema is not None:\n                if self.set_metadata is False:\n"),
     dict(name="false-still-writes", mod="core", expect="fire", rule="R32.1", old="        if self.set_metadata is False or var is None:\n            return  # no md to set", new="        if var is None:\n            return  # no md to set"),
     dict(name="true-keeps-old-metadata", mod="core", expect="fire", rule="R32.1", old="                    logger.info(f\"Clearing metadata from {table_name}\")\n                    table.drop_metadata()\n", new="                    logger.info(f\"Clearing metadata from {table_name}\")\n"),
     dict(name="none-silent-skip", mod="core", expect="fire", rule="R32.1", old="                    logger.warning(\n                        f\"Could not set time metadata on {table_name} \"\n                        f\"(force this by specifying `set_metadata=True`): {e}\"\n                    )\n                    return", new="                    return"),
     dict(name="schema-not-installed", mod="core", expect="fire", rule="R32.1", old="            table.metadata_schema = default_schema\n            table.packset_metadata(_time_md_array(table, mean, var))", new="            table.packset_metadata(_time_md_array(table, mean, var))"),
     dict(name="existing-test-and", mod="core", expect="fire", rule="R32.1", old="            if len(table.metadata) > 0 or table.metadata_schema.schema is not None:", new="            if len(table.metadata) > 0:"),
+    dict(name="decode-skipped-for-own-schema", mod="core", expect="fire", rule="R32.2", old="            if len(table.metadata) > 0:\n                md_iter", new="            if len(table.metadata) > 0 and schema != default_schema:\n                md_iter"),
     dict(name="only-mn-written", mod="core", expect="fire", rule="R32.2", old='                metadata_dict.update((("mn", mn), ("vr", vr)))', new='                metadata_dict.update((("mn", mn),))'),
     dict(name="rows-conditionally-updated", mod="core", expect="fire", rule="R32.2", old='                metadata_dict.update((("mn", mn), ("vr", vr)))\n                metadata_array.append(schema.validate_and_encode_row(metadata_dict))', new='                if vr > 0:\n                    metadata_dict.update((("mn", mn), ("vr", vr)))\n                metadata_array.append(schema.validate_and_encode_row(metadata_dict))'),
     dict(name="twin-info-message", mod="core", expect="silent", old="            logger.info(f\"Setting metadata schema on {table_name}\")", new="            logger.debug(f\"Installing default schema on {table_name}\")"),
